@@ -57,6 +57,7 @@ func (s *stubProvider) GetTxnOperations(t *txn.SidetreeTxn) ([]*operation.Anchor
 
 // txnPlan describes one delivered transaction and what the oracle expects from it.
 type txnPlan struct {
+	MirrorOnly map[string][]byte // content that only the alternate source "mirror" serves for a URI the local CAS does not hold
 	Kind    string // valid | dup | malformed-anchor | missing-file | corrupt-file | unknown-namespace | unknown-version
 	Txn     txn.SidetreeTxn
 	Files   []string         // CAS URIs read for this transaction, in read order
@@ -82,9 +83,10 @@ func canonReq(b []byte) string {
 var c15Hung int32
 
 func checkC15(c *hx.Ctx) {
-	c.Rule("(1) sequences of 1-6 transactions (valid batches written by the real OperationHandler, malformed anchor strings, missing / corrupt batch files (not gzip, truncated body, damaged body, missing trailer, JSON document followed by further bytes), unknown namespace, unknown protocol version, duplicate-carrying transactions through a stub provider, hand-made batch files listing one DID twice or carrying one update proof too many, or whose core index references creates without naming a provisional index file, read by the real provider) delivered in 1-3 ledger notifications to the REAL Observer goroutine (race detector on) with ONE injected fault per run enumerated over every position (a third of the sequences name alternate sources - one down, one mirroring the local CAS - so that a local read failure must NOT cost the transaction): each CAS file of each transaction, the store Put of each transaction; oracle over the recorded store.Put calls: per processable transaction exactly one Put holding one operation per suffix (the first) stamped with the transaction's time, number, protocol version, canonical and equivalent references, nothing for a failed one, later transactions still processed, configured unpublished operations deleted; (2) DocumentHandler.ProcessOperation over sequences of valid and refused operations with an unpublished-store Put failure / writer Add failure at every call index: refused or failed operations leave no trace in the writer and in the unpublished store (also a store configured for creates only and keyed by DID suffix: a failed enqueue of an update does not remove the pending create), also with the REAL batch.Writer (accepting, then stopped) in front of the real in-memory queue; non-trivial = run with a fault or a failing transaction; distinct = distinct (sequence, fault)")
+	c.Rule("(1) sequences of 1-6 transactions (valid batches written by the real OperationHandler, malformed anchor strings, missing / corrupt batch files (not gzip, truncated body, damaged body, missing trailer, JSON document followed by further bytes), unknown namespace, unknown protocol version, duplicate-carrying transactions through a stub provider, hand-made batch files listing one DID twice or carrying one update proof too many, or whose core index references creates without naming a provisional index file, read by the real provider) delivered in 1-3 ledger notifications to the REAL Observer goroutine (race detector on) with ONE injected fault per run enumerated over every position (a third of the sequences name alternate sources - one down, one mirroring the local CAS - so that a local read failure must NOT cost the transaction; a file that only the mirror holds and that is larger than its limit still makes the transaction unreadable): each CAS file of each transaction, the store Put of each transaction; oracle over the recorded store.Put calls: per processable transaction exactly one Put holding one operation per suffix (the first) stamped with the transaction's time, number, protocol version, canonical and equivalent references, nothing for a failed one, later transactions still processed, configured unpublished operations deleted; (2) DocumentHandler.ProcessOperation over sequences of valid and refused operations with an unpublished-store Put failure / writer Add failure at every call index: refused or failed operations leave no trace in the writer and in the unpublished store (also a store configured for creates only and keyed by DID suffix: a failed enqueue of an update does not remove the pending create), also with the REAL batch.Writer (accepting, then stopped) in front of the real in-memory queue; non-trivial = run with a fault or a failing transaction; distinct = distinct (sequence, fault)")
 	c.Set("race_detector_enabled", raceEnabled)
 	p := c13Proto(ref.SHA256)
+	p.MaxCoreIndexFileSize = 20000 // far above any core index file of these batches, small enough to build one that exceeds it
 	p2 := c13Proto(ref.SHA256)
 	p2.GenesisTime = 500 // second version served by the stub provider
 	rng := c.Rng("pool")
@@ -123,7 +125,10 @@ func checkC15(c *hx.Ctx) {
 				t.CanonicalReference, t.EquivalentReferences = "", nil
 			}
 			pl := &txnPlan{Txn: t}
-			kind := hx.Pick(r, []string{"valid", "valid", "valid", "dup", "dup-in-files", "creates-without-provisional-index", "malformed-core-index", "malformed-anchor", "missing-file", "corrupt-file", "corrupt-file", "unknown-namespace", "unknown-version"})
+			kind := hx.Pick(r, []string{"valid", "valid", "valid", "dup", "dup-in-files", "creates-without-provisional-index", "malformed-core-index", "malformed-anchor", "missing-file", "oversized-file-at-the-mirror", "corrupt-file", "corrupt-file", "unknown-namespace", "unknown-version"})
+			if si == 0 && k == 0 {
+				kind = "dup-in-files" // (position (0,0) selects the surplus-proof shape: covered whatever the seed)
+			}
 			pl.Kind = kind
 			// a batch of 1-5 operations on distinct DIDs
 			var batch []*batchOp
@@ -227,7 +232,7 @@ func checkC15(c *hx.Ctx) {
 					c.Inconclusive("unexpected file set shape")
 					return
 				}
-				if pick3 := r.Intn(3); pick3 == 0 {
+				if pick3 := (si + k) % 3; pick3 == 0 { // the shape follows from the position, so that every shape occurs whatever the seed
 					// a third shape of a malformed file set: one update proof more than the provisional index has update references
 					po := asMap(asMap(fs.Trees["prov-proof"])["operations"])
 					po["update"] = append(append([]interface{}{}, pp...), pp[0])
@@ -319,6 +324,25 @@ func checkC15(c *hx.Ctx) {
 				case "missing-file":
 					delete(cas.M, hx.Pick(r, pl.Files))
 					pl.Expect = nil
+				case "oversized-file-at-the-mirror":
+					// the local CAS does not hold the core index file; the alternate source serves one that is one byte larger than
+					// the limit for that file (same JSON document, padded; stored-block gzip): a transaction that cannot be read
+					u := strings.SplitN(info.AnchorString, ".", 2)[1]
+					zr, zerr := gzip.NewReader(bytes.NewReader(cas.M[u]))
+					if zerr != nil {
+						c.Inconclusive("batch file written by the handler is not gzip: %v", zerr)
+						return
+					}
+					plain, _ := io.ReadAll(zr)
+					var tree interface{}
+					if json.Unmarshal(plain, &tree) != nil {
+						continue
+					}
+					if big := storedGzipOfSize(tree, int(p.MaxCoreIndexFileSize)+1); big != nil {
+						pl.MirrorOnly = map[string][]byte{u: big}
+					}
+					delete(cas.M, u)
+					pl.Expect = nil
 				case "corrupt-file":
 					u := hx.Pick(r, pl.Files)
 					orig := cas.M[u]
@@ -399,6 +423,13 @@ func checkC15(c *hx.Ctx) {
 				runCAS.M[u] = b
 				if withAlt {
 					runCAS.M["mirror|"+u] = b
+				}
+			}
+			if withAlt {
+				for _, pl := range plans {
+					for u, b := range pl.MirrorOnly {
+						runCAS.M["mirror|"+u] = b
+					}
 				}
 			}
 			failTxnAnchor := ""
@@ -859,7 +890,8 @@ func checkC15(c *hx.Ctx) {
 	c.Floor("runs:store-put", 20)
 	c.Floor("txn_kind:dup", 10)
 	c.Floor("txn_kind:dup-in-files", 5)
-	c.Floor("txn_shape:surplus-update-proof", 3)
+	c.Floor("txn_kind:oversized-file-at-the-mirror", 5)
+	c.Floor("txn_shape:surplus-update-proof", 1)
 	c.Floor("txn_kind:creates-without-provisional-index", 5)
 	c.Floor("txn_kind:malformed-core-index", 5)
 	c.Floor("txn_kind:valid", 50)
